@@ -127,3 +127,61 @@ func VerifC13MultiSymbol() {
 		rt.Assert(k == len(b), "only-rows-in-range-returned")
 	}
 }
+
+// C13 (b): two symbols whose buckets have different record lengths (AAA: Epoch+V+F+G = 24 bytes,
+// BBB: Epoch+V+F+G+H = 32 bytes; record lengths are multiples of 8), queried together over a range longer than one read buffer
+// (8192 records) and projected to the common column V. The reader has to size its buffer per
+// bucket: every row of AAA - also the ones stored beyond the first buffer of the scan - must come
+// back as in the single-symbol query.
+func VerifC13MixedRecordLengths() {
+	rt.Opt("clock", 1)
+	utils.InstanceConfig.Timezone = time.UTC
+	root := rt.TempDir()
+	defer rt.Cleanup()
+	cat, _ := catalog.NewDirectory(root)
+	wf, err := executor.NewWALFile(root, 7, nil, false, &sync.WaitGroup{}, executor.StartNewTriggerPluginDispatcher(nil), executor.NewTransactionPipe())
+	if err != nil {
+		panic("harness: " + err.Error())
+	}
+	w, _ := executor.NewWriter(cat, wf)
+	t0 := time.Date(2020, 3, 2, 0, 0, 0, 0, time.UTC).Unix()
+	// minutes around the place where a buffer of 8192 32-byte records ends inside the file of 24-byte records
+	cand := []int64{0, 8191, 10922, 10923, 12000}
+	var mins [2]int64
+	var vals [2]int32
+	mins[0] = cand[int(rt.Fix(rt.Int("minute0", 0, int64(len(cand)-1))))]
+	mins[1] = cand[int(rt.Fix(rt.Int("minute1", 0, int64(len(cand)-1))))]
+	rt.Assume(mins[0] < mins[1])
+	vals[0], vals[1] = rt.Int32("a0"), rt.Int32("a1")
+	bv := rt.Int32("b0")
+	write := func(sym string, ep []int64, v []int32, wide bool) {
+		cs := io.NewColumnSeries()
+		cs.AddColumn("Epoch", ep)
+		cs.AddColumn("V", v)
+		cs.AddColumn("F", make([]float32, len(ep)))
+		cs.AddColumn("G", make([]float64, len(ep)))
+		if wide {
+			cs.AddColumn("H", make([]float64, len(ep)))
+		}
+		csm := io.NewColumnSeriesMap()
+		csm.AddColumnSeries(*io.NewTimeBucketKey(sym + "/1Min/OHLCV"), cs)
+		if err := w.WriteCSM(csm, false); err != nil {
+			panic("harness: " + err.Error())
+		}
+	}
+	write("AAA", []int64{t0 + 60*mins[0], t0 + 60*mins[1]}, vals[:], false)
+	write("BBB", []int64{t0 + 60*rt.Fix(rt.Int("b_minute", 0, 1))*12000}, []int32{bv}, true)
+	start, end := time.Unix(t0, 0).UTC(), time.Unix(t0+60*13000, 0).UTC()
+	qs := NewQueryService(cat)
+	rt.Reach("entered")
+	multi, merr := qs.ExecuteQuery(io.NewTimeBucketKey("AAA,BBB/1Min/OHLCV"), start, end, 0, false, []string{"V"})
+	rt.Assert(merr == nil, "multi-symbol-query-succeeds")
+	rt.Reach("queried")
+	a, av, _, _ := vBarsOf(multi[*io.NewTimeBucketKey("AAA/1Min/OHLCV")])
+	rt.Assert(av && len(a) == 2, "same-rows-as-the-single-symbol-query")
+	for i := range a {
+		rt.Assert(a[i].ep == t0+60*mins[i] && a[i].v == vals[i], "same-values-as-the-single-symbol-query")
+	}
+	b, bvOK, _, _ := vBarsOf(multi[*io.NewTimeBucketKey("BBB/1Min/OHLCV")])
+	rt.Assert(bvOK && len(b) == 1 && b[0].v == bv, "same-values-as-the-single-symbol-query")
+}
